@@ -119,6 +119,27 @@ def check_search(acc, E, query, cands, opts, nd, hist_too=False):
                             nontrivial = True
                         if k is not None and k < N:
                             nontrivial = True
+    # both thresholds at once: the tighter of max_dist and max_value * len(query) decides, whichever way they are ordered
+    gaps = [m for m in limits(D) if m is not None]
+    for m_lo, m_hi in [(a, b) for a in gaps for b in gaps if a < b][:3]:
+        for md, mv in ((m_hi, m_lo / len(query)), (m_lo, m_hi / len(query))):
+            limit = min(md, mv * len(query))
+            if any(abs(d - limit) < 1e-9 for d in D if d < inf):
+                continue
+            for use_lb in (True, False):
+                for use_c in (False, True):
+                    for k in (1, N, None):
+                        ss = core.call(E.make, query, cands, opts, use_lb, md, mv, use_c, nd)
+                        obs = ss if isinstance(ss, core.Exc) else core.call(lambda: observe(ss.kbest_matches(k=k)))
+                        acc.trans()
+                        acc.valid()
+                        why = repr(obs) if isinstance(obs, core.Exc) else judge(obs, D, limit, k)
+                        if why:
+                            acc.violation('knn', 'kbest_matches', 'c' if use_c else 'py',
+                                          {'what': 'knn', 'ndim': nd, 'use_lb': use_lb, 'k_none': k is None, 'max_dist_on': True, 'both_thresholds': True, 'psi_on': bool(opts.get('psi')),
+                                           'window_on': bool(opts.get('window')), 'ties': len(set(D)) < len(D)},
+                                          {'query': query, 'candidates': cands, 'options': opts, 'ndim': nd, 'use_lb': use_lb, 'use_c': use_c, 'k': k, 'max_dist': md, 'max_value': mv},
+                                          {'reference_distances': D}, {'observed': None if isinstance(obs, core.Exc) else obs, 'why': why})
     return D, nontrivial
 
 
@@ -277,7 +298,7 @@ def run(ctx):
         rule='E1: every candidate list of 1..%d series drawn with repetition (hence in every order) from pools built to create ties and duplicates x window x penalty x psi x every max_dist/max_value '
              'threshold class x use_lb x engine x every k in 1..N+1 and None; E2: every history up to depth %d over {kbest_matches(1|2|3|None), best_match, align(2), kbest_matches_fast(2), reset} on 3 candidate lists, and every depth-2 history on EVERY ordered candidate list of length 3 over the pools (use_lb on); '
              'non-trivial = a threshold excludes a candidate or k < N / history length >= 2' % (5 if ctx.thorough else 4, 4 if ctx.thorough else 3),
-        bounds={'pools': '2 univariate pools (6 and 5 series, lengths 1..4) and one 2-dimensional pool', 'thresholds': 'None, between best and 2nd best, a middle gap, above all, below all; as max_dist and as max_value; equal to the smallest two exactly representable distances (max_dist only)'},
+        bounds={'pools': '2 univariate pools (6 and 5 series, lengths 1..4) and one 2-dimensional pool', 'thresholds': 'None, between best and 2nd best, a middle gap, above all, below all; as max_dist and as max_value; equal to the smallest two exactly representable distances (max_dist only); max_dist and max_value together, either one the tighter'},
         assumptions=['reference = sorted exhaustive reference DTW distances; indices are compared up to ties (a reported index must have the reported distance)',
                      'thresholds are placed in gaps between distinct distances, or exactly ON a distance where that distance is a small dyadic rational (its square is exactly the accumulated cost, so <= is decided without rounding); never within rounding distance otherwise'],
         t0=ctx.t0)
